@@ -556,7 +556,7 @@ def gen_selcli(rng, tier):
     """select_next_plate.main() on hand-written chunk files holding -inf / +inf / huge / denormal / 1-ulp-apart scores (and,
     in a smaller stream, NaN), with and without KPerSamplePlatePolicy, files shuffled, some of them empty, one possibly given
     twice"""
-    for it in range(60 if tier == "quick" else 700):
+    for it in range(100 if tier == "quick" else 1000):
         pol = rng.choice(["none", "kper", "kper"])
         sd, npl = gen_screen(rng, single_sample=(pol == "kper"))
         sd.pop("partial", None)
@@ -580,8 +580,12 @@ def gen_selcli(rng, tier):
         nfiles = rng.choice([1, 2, 3, len(cands) + 2])
         cut = sorted(rng.randint(0, len(scored)) for _ in range(nfiles - 1))
         files = [scored[a:b] for a, b in zip([0] + cut, cut + [len(scored)])]
-        if rng.random() < 0.25 and files:
-            files.append(list(rng.choice(files)))          # one chunk file given twice
+        nonempty = [f for f in files if f]
+        if rng.random() < 0.4 and nonempty:
+            dup = [list(x) for x in rng.choice(nonempty)]   # one chunk file given twice ...
+            if rng.random() < 0.75:                         # ... scored again by a scorer that is not a function of the plate
+                dup = [[pid, rng.choice([x for x in XSCORES if x != t] if flavour != "nan" else pool)] for pid, t in dup]
+            files.append(dup)
         rng.shuffle(files)
         d = dict(kind="selcli", screen=sd, batch=batch, files=files, policy=pol, seed=rng.randrange(10 ** 6))
         if pol == "kper":
